@@ -57,8 +57,8 @@ Section C08Text.
   Hypothesis plain_mode : cfg_accessor cfg = false.
   Notation parse := (parse_with cfg parse_float regex_ok jsonpath_grammar).
   Notation eval_run := (eval_run ffun afun regex_match).
-  Notation nav1f := (nav1f parse_float).
-  Notation nav_allf := (nav_allf parse_float).
+  Notation nav1f := (nav1f parse_float regex_match).
+  Notation nav_allf := (nav_allf parse_float regex_match).
 
   Lemma nav1f_vrel root x l l' v : vrel (nav1f root x (l, v)) (nav1f root x (l', v)).
   Proof. destruct x as [y|i|i o lit|i|d]; cbn [FiltChainAddr.nav1f]; [apply nav1r_vrel|apply navp_vrel|apply navp_vrel|apply navp_vrel|apply navp_vrel]. Qed.
@@ -81,14 +81,14 @@ Section C08Text.
   Proof.
     induction q as [|x r IH]; intros [l v] Hsm; cbn [FiltChainAddr.nav_allf]; [constructor; [exact Hsm|constructor]|].
     apply Forall_forall. intros a Hin. apply in_flat_map in Hin. destruct Hin as [b [Hb Ha]].
-    pose proof (nav1f_small parse_float root x l v Hsm) as Hn. rewrite Forall_forall in Hn.
+    pose proof (nav1f_small parse_float regex_match root x l v Hsm) as Hn. rewrite Forall_forall in Hn.
     pose proof (IH b (Hn b Hb)) as Hr. rewrite Forall_forall in Hr. exact (Hr a Ha).
   Qed.
 
   (* the values a call returns; nothing when it fails *)
   Definition vals_of (o : outcome) : list value := match o with OOk rs => map res_value rs | _ => [] end.
 
-  Lemma values_of_path x r doc st t : forallb fstep_ok (x :: r) = true -> forallb (fstep_okp parse_float) (x :: r) = true -> small doc -> ok st ->
+  Lemma values_of_path x r doc st t : forallb fstep_ok (x :: r) = true -> forallb (fstep_okp parse_float regex_ok) (x :: r) = true -> small doc -> ok st ->
     parse (fchain_path (x :: r)) = ParseOk t ->
     vals_of (fst (eval_run t doc st)) = map snd (nav_allf doc (x :: r) ([], doc)) /\
     ((exists e, fst (eval_run t doc st) = OErr e) <-> nav_allf doc (x :: r) ([], doc) = []).
@@ -104,7 +104,7 @@ Section C08Text.
   Qed.
 
   Theorem concatenation_from_text p0 p q0 q doc st :
-    forallb fstep_ok ((p0 :: p) ++ q0 :: q) = true -> forallb (fstep_okp parse_float) ((p0 :: p) ++ q0 :: q) = true ->
+    forallb fstep_ok ((p0 :: p) ++ q0 :: q) = true -> forallb (fstep_okp parse_float regex_ok) ((p0 :: p) ++ q0 :: q) = true ->
     forallb (fstep_rootfree) (q0 :: q) = true -> small doc -> ok st ->
     exists tpq tq,
       parse (fchain_path ((p0 :: p) ++ q0 :: q)) = ParseOk tpq /\ parse (fchain_path (q0 :: q)) = ParseOk tq /\
@@ -115,7 +115,7 @@ Section C08Text.
   Proof.
     intros Hs Hp Hrf Hd Hok.
     assert (Hsq : forallb fstep_ok (q0 :: q) = true) by (rewrite forallb_app in Hs; apply andb_true_iff in Hs; exact (proj2 Hs)).
-    assert (Hpq : forallb (fstep_okp parse_float) (q0 :: q) = true) by (rewrite forallb_app in Hp; apply andb_true_iff in Hp; exact (proj2 Hp)).
+    assert (Hpq : forallb (fstep_okp parse_float regex_ok) (q0 :: q) = true) by (rewrite forallb_app in Hp; apply andb_true_iff in Hp; exact (proj2 Hp)).
     exists (fchain_node cfg parse_float ((p0 :: p) ++ q0 :: q)), (fchain_node cfg parse_float (q0 :: q)).
     pose proof (parse_fchain_path cfg parse_float regex_ok p0 (p ++ q0 :: q) Hs Hp) as T1.
     pose proof (parse_fchain_path cfg parse_float regex_ok q0 q Hsq Hpq) as T2.
@@ -124,7 +124,7 @@ Section C08Text.
     assert (Hinner : forall lv, In lv (nav_allf doc (p0 :: p) ([], doc)) ->
               vals_of (fst (eval_run (fchain_node cfg parse_float (q0 :: q)) (snd lv) st)) = map snd (nav_allf doc (q0 :: q) lv)).
     { intros [l v] Hin. pose proof (nav_allf_small doc (p0 :: p) ([], doc) Hd) as Hsm. rewrite Forall_forall in Hsm.
-      destruct (values_of_path q0 q v st _ Hsq Hpq (Hsm _ Hin) Hok T2) as [V2 _]. cbn [snd]. rewrite V2, (nav_allf_rootfree parse_float v doc (q0 :: q) Hrf).
+      destruct (values_of_path q0 q v st _ Hsq Hpq (Hsm _ Hin) Hok T2) as [V2 _]. cbn [snd]. rewrite V2, (nav_allf_rootfree parse_float regex_match v doc (q0 :: q) Hrf).
       apply vrel_values. apply nav_allf_vrel. reflexivity. }
     assert (E : flat_map (fun lv => vals_of (fst (eval_run (fchain_node cfg parse_float (q0 :: q)) (snd lv) st))) (nav_allf doc (p0 :: p) ([], doc)) =
                 map snd (nav_allf doc ((p0 :: p) ++ q0 :: q) ([], doc))).
